@@ -170,13 +170,16 @@ def run(cx):
     identify_edges_rules(cx)
     b = cx.fn(f'{ED}::naive_edges')
     if b:
-        ps = [cx.arg(s, 1) for s in b.calls('Vec::push')]
+        # three edges per face, in this order, whether pushed in a loop or produced by flat_map over an array literal
+        from vpa import comp as CMP
+        comps = [c for c in CMP.comprehensions(cx, b, cx.retval(b)) if c.get('elem') is not None]
+        F = '(index (param faces) (itervar (range 0 (len (param faces)))))'
         want = [(1, 2), (2, 0), (0, 1)]
-        ok = len(ps) == 3
-        for d, (i, j) in zip(ps, want):
-            ok = ok and match(f'(agg array (0 (index (itervar (param faces)) {i})) (1 (index (itervar (param faces)) {j})))', d) is not None
+        ok = len(comps) == 3 and all(not c['conds'] for c in comps)
+        for c, (i, j) in zip(comps, want):
+            ok = ok and match(f'(agg array (0 (index {F} {i})) (1 (index {F} {j})))', c['elem']) is not None
         cx.ob('EXPR', 'naive_edges:order', ok, 'edge j of a face is the edge opposite vertex j: (1,2), (2,0), (0,1) - three per face, in face order',
-              found='; '.join(show(p) for p in ps))
+              found='; '.join(show(c['elem']) for c in comps))
     b = cx.fn(f'{ED}::unique_edges')
     if b:
         r = cx.retval(b)
